@@ -319,6 +319,196 @@ fn run_type(ty: &str, all: &[Item<Value>], local: &mut Local) {
     }
 }
 
+fn has_nan(v: &V) -> bool {
+    let mut nan = false;
+    v.walk(&mut |x| match x {
+        V::Num(n, _) if n.is_nan() => nan = true,
+        V::Coord(a, b) if a.is_nan() || b.is_nan() => nan = true,
+        _ => {}
+    });
+    nan
+}
+
+fn strip_units(v: &V) -> V {
+    let f = strip_units;
+    let tags = |t: &crate::model::v::Tags| t.iter().map(|(k, x)| (k.clone(), f(x))).collect::<Vec<_>>();
+    match v {
+        V::Num(x, Some(_)) => V::Num(*x, None),
+        V::List(l) => V::List(l.iter().map(f).collect()),
+        V::Dict(d) => V::Dict(tags(d)),
+        V::Grid(g) => V::Grid(Box::new(G {
+            ver: g.ver.clone(),
+            meta: g.meta.as_ref().map(|m| tags(m)),
+            cols: g.cols.iter().map(|c| Col { name: c.name.clone(), meta: c.meta.as_ref().map(|m| tags(m)) }).collect(),
+            rows: g.rows.iter().map(|r| tags(r)).collect(),
+        })),
+        other => other.clone(),
+    }
+}
+
+fn has_unit(v: &V) -> bool {
+    let mut u = false;
+    v.walk(&mut |x| {
+        if let V::Num(_, Some(_)) = x {
+            u = true
+        }
+    });
+    u
+}
+
+/// The wide set W: the pool plus the scalar alphabet Σ and containers of U (strided in the quick
+/// tier), without NaN.
+fn wide_values(tier: Tier) -> Vec<V> {
+    let mut w = pool(tier);
+    let sc = u::scalars(Tier::Quick);
+    w.extend(sc.into_iter().step_by(tier.pick(5, 1)));
+    let cont = u::containers(Tier::Quick);
+    let want = tier.pick(300usize, 1500);
+    let stride = (cont.len() / want).max(1);
+    w.extend(cont.into_iter().step_by(stride));
+    u::ver_variants(&mut |v| w.push(v));
+    w.retain(|v| !has_nan(v));
+    w
+}
+
+/// Pair laws on all |W|² ordered pairs of `Value`s and — through ranks — transitivity on all
+/// |W|³ triples: in a total preorder a<b forces rank(a)<rank(b) and a~b forces equal ranks (rank =
+/// number of elements below); if every pair obeys that, no triple a<=b<=c with a>c exists, and
+/// conversely a violated triple breaks it for one of its pairs. Equality classes likewise:
+/// == is an equivalence iff a==b <=> class(a)==class(b) with class(a) = first element == a.
+fn wide_laws(tier: Tier, run: &mut Run) {
+    use std::sync::atomic::{AtomicU8, Ordering as AO};
+    let vals = wide_values(tier);
+    let libs: Vec<Value> = vals.iter().map(to_lib).collect();
+    let n = libs.len();
+    run.note("wide_set_size", json!(n));
+    let hashes: Vec<(u64, u64)> = libs.iter().map(|v| (h1(v), h2(v))).collect();
+    let m: Vec<AtomicU8> = (0..n * n).map(|_| AtomicU8::new(0)).collect();
+    let pair_fail = |local: &mut Local, law: &str, idx: &[usize], detail: String| {
+        let descs: Vec<String> = idx.iter().map(|&i| shape_sig(&vals[i])).collect();
+        let sig = format!("{law}:Value:{}", descs.join("/"));
+        local.fail(&sig, json!({"type": "Value", "law": law, "values": idx.iter().map(|&i| to_json(&vals[i])).collect::<Vec<_>>()}), detail);
+    };
+    let l = par_for(n, |i, local| {
+        let a = &libs[i];
+        for j in 0..n {
+            let b = &libs[j];
+            local.evals += 1;
+            let e = a == b;
+            let o = a.cmp(b);
+            m[i * n + j].store(((e as u8) << 2) | (o as i8 + 1) as u8, AO::Relaxed);
+            if e != (b == a) {
+                pair_fail(local, "eq-symmetric", &[i, j], format!("{a:?} == {b:?} is {e} but the converse is {}", !e));
+            }
+            if e && hashes[i] != hashes[j] {
+                pair_fail(local, "eq-implies-hash", &[i, j], format!("{a:?} == {b:?} but their hashes differ"));
+            }
+            if o != b.cmp(a).reverse() {
+                pair_fail(local, "cmp-antisymmetric", &[i, j], format!("cmp({a:?},{b:?})={o:?} but reverse is {:?}", b.cmp(a)));
+            }
+            if (o == Ordering::Equal) != e {
+                pair_fail(local, "cmp-equal-iff-eq", &[i, j], format!("cmp({a:?},{b:?})={o:?} but == is {e}"));
+            }
+            match a.partial_cmp(b) {
+                Some(p) => {
+                    if p != o {
+                        pair_fail(local, "partial-agrees-with-total", &[i, j], format!("partial_cmp({a:?},{b:?})=Some({p:?}) but cmp={o:?}"));
+                    }
+                }
+                None => {
+                    // `sort` compares through `lt`, i.e. through partial_cmp: a pair without an
+                    // answer is what makes sorting unsafe. The only recorded cause is Numbers with
+                    // different units; an unanswered pair that stays unanswered with the units
+                    // removed has another cause.
+                    local.count("pairs-without-partial-answer");
+                    let (sa, sb) = (to_lib(&strip_units(&vals[i])), to_lib(&strip_units(&vals[j])));
+                    if sa.partial_cmp(&sb).is_none() {
+                        pair_fail(local, "partial-order-silent-on-comparable-values", &[i, j], format!("partial_cmp({a:?},{b:?}) is None although no Numbers with different units are involved; sort() compares through it"));
+                    }
+                }
+            }
+        }
+        if !(a == a) {
+            pair_fail(local, "eq-reflexive", &[i], format!("{a:?} != itself"));
+        }
+        local.count("wide-values");
+    });
+    run.absorb(l);
+    let eq = |i: usize, j: usize| m[i * n + j].load(AO::Relaxed) >> 2 == 1;
+    let cm = |i: usize, j: usize| (m[i * n + j].load(AO::Relaxed) & 3) as i8 - 1; // -1 less, 0 equal, 1 greater
+    let rank: Vec<usize> = (0..n).map(|i| (0..n).filter(|&j| cm(i, j) == 1).count()).collect();
+    let class: Vec<usize> = (0..n).map(|i| (0..n).find(|&j| eq(i, j)).unwrap_or(i)).collect();
+    let l = par_for(n, |i, local| {
+        for j in 0..n {
+            local.evals += n as u64; // the pair stands for all triples (i, j, k)
+            let c = cm(i, j);
+            let ranks_ok = match c {
+                -1 => rank[i] < rank[j],
+                0 => rank[i] == rank[j],
+                _ => rank[i] > rank[j],
+            };
+            if !ranks_ok {
+                // find the third element of a violated triple
+                let k = (0..n).find(|&k| (cm(i, j) != 1 && cm(j, k) != 1 && cm(i, k) == 1) || (cm(k, i) != 1 && cm(i, j) != 1 && cm(k, j) == 1) || (cm(j, k) != 1 && cm(k, i) != 1 && cm(j, i) == 1));
+                let idx: Vec<usize> = match k {
+                    Some(k) => vec![i, j, k],
+                    None => vec![i, j],
+                };
+                pair_fail(local, "cmp-transitive", &idx, format!("cmp({:?},{:?})={c} but {} resp. {} values order below them: the order is not transitive", libs[i], libs[j], rank[i], rank[j]));
+            }
+            if eq(i, j) != (class[i] == class[j]) {
+                let k = class[i].min(class[j]);
+                pair_fail(local, "eq-transitive", &[i, j, k], format!("{:?} and {:?}: == is {} but their first equal elements are #{} and #{}", libs[i], libs[j], eq(i, j), class[i], class[j]));
+            }
+        }
+    });
+    run.absorb(l);
+    // consequences on the wide set
+    // consequences, on the whole set and on its part without unit-carrying Numbers (where every
+    // pair has a partial answer, so nothing excuses a failure)
+    for (part, keep_units) in [("all", true), ("unitless", false)] {
+        let idx: Vec<usize> = (0..n).filter(|&i| keep_units || !has_unit(&vals[i])).collect();
+        let sub: Vec<Value> = idx.iter().map(|&i| libs[i].clone()).collect();
+        let nclasses = {
+            let mut c: Vec<usize> = idx.iter().map(|&i| class[i]).collect();
+            c.sort();
+            c.dedup();
+            c.len()
+        };
+        run.note(&format!("wide_set_classes_{part}"), json!(nclasses));
+        let hs: HashSet<Value, std::hash::BuildHasherDefault<DefaultHasher>> = sub.iter().cloned().collect();
+        let bs = guarded(|| sub.iter().cloned().collect::<BTreeSet<Value>>().len());
+        let sorted = guarded(|| {
+            let mut s = sub.clone();
+            s.sort();
+            let in_order = s.windows(2).all(|w| w[0].cmp(&w[1]) != Ordering::Greater);
+            s.dedup();
+            (s.len(), in_order)
+        });
+        run.stats.evals += 3;
+        let mut sizes = vec![("HashSet", hs.len())];
+        let case = |c: &str| json!({"type": "Value", "law": "collection-size", "collection": c, "wide": true, "part": part});
+        // one signature for every symptom on the whole set (which symptom shows depends on the
+        // sort implementation of the standard library); one per symptom on the unit-free part
+        let sig_of = |symptom: &str| if keep_units { "sort-unsafe:numbers-with-different-units".to_string() } else { format!("sort-unsafe:{symptom}:no-unit-carrying-numbers") };
+        match bs {
+            Ok(k) => sizes.push(("BTreeSet", k)),
+            Err(p) => run.stats.fail(&sig_of("BTreeSet-from-iter-panics"), case("btreeset-panics"), format!("building a BTreeSet of the {}-value set panics: {p}", sub.len())),
+        }
+        match sorted {
+            Ok((k, true)) => sizes.push(("sort+dedup", k)),
+            Ok((_, false)) => run.stats.fail(&sig_of("sort-leaves-unsorted"), case("sort-unsorted"), format!("sort() of the {}-value set returns a sequence that cmp does not call sorted", sub.len())),
+            Err(p) => run.stats.fail(&sig_of("sort-panics"), case("sort-panics"), format!("sorting the {}-value set panics: {p}", sub.len())),
+        }
+        for (name, got) in sizes {
+            if got != nclasses {
+                let sig = if name == "HashSet" { format!("collection-size:Value:wide-{part}-{name}") } else { sig_of(&format!("{name}-size")) };
+                run.stats.fail(&sig, case(&format!("wide-{name}")), format!("{name} of the {}-value set has {got} elements, == has {nclasses} classes", sub.len()));
+            }
+        }
+    }
+}
+
 const TYPES: &[&str] = &["Value", "Number", "Coord", "Ref", "Str", "Uri", "Symbol", "XStr", "Bool", "List", "Dict", "Grid", "Column", "Date", "Time", "DateTime"];
 
 /// Unit: Eq + Hash + PartialOrd over all database units
@@ -354,7 +544,7 @@ fn unit_laws(local: &mut Local) {
 
 pub fn run(tier: Tier) -> i32 {
     let mut run = Run::new("C12", tier, "exploration");
-    run.rule = "near-collision pool Π (±0 plain/with unit/in Coord/nested, same magnitude under different or no unit, Refs differing only in dis, same payload under different kinds, dict/list/grid neighbours, equal instants in different zones); every law on all |Π|² ordered pairs and all |Π|³ triples, for Value and each typed value; non-trivial = ordered pair of two different pool entries (distinct by type + both values)".into();
+    run.rule = "near-collision pool Π (±0 plain/with unit/in Coord/nested, same magnitude under different or no unit, Refs differing only in dis, same payload under different kinds, dict/list/grid neighbours, equal instants in different zones); every law on all |Π|² ordered pairs and all |Π|³ triples, for Value and each typed value; plus the wide set W (Π, the scalar alphabet Σ — every 5th value in the quick tier —, 300/1500 containers of U, the ver variants; no NaN): every pair law on all |W|² ordered pairs of Values and transitivity of == and of cmp on all |W|³ triples decided through ranks and classes (equivalent, O(|W|²)); HashSet/BTreeSet/sort+dedup of W have one element per ==-class; non-trivial = ordered pair of two different pool entries (distinct by type + both values)".into();
     run.assume("no NaN anywhere (excluded by the statement)");
     run.assume("SipHash (DefaultHasher) and FNV-1a stand for 'any Hasher'");
     crate::engine::quiet_panics();
@@ -371,6 +561,8 @@ pub fn run(tier: Tier) -> i32 {
         }
     });
     run.absorb(l);
+    wide_laws(tier, &mut run);
+    run.require(run.counter("wide-values") > 500, "wide set too small");
     for t in ["Value", "Number", "Coord", "Ref", "Dict", "Grid", "List"] {
         run.require(run.counter(&format!("equal-but-not-identical:{t}")) > 0, &format!("no equal-but-not-identical pair of type {t}"));
     }
@@ -389,6 +581,17 @@ pub fn replay(case: &J) -> Verdict {
     let mut local = Local::new();
     if ty == "Unit" {
         unit_laws(&mut local);
+    } else if case["wide"] == true {
+        // a consequence on the wide set: rebuild the set of the recording tier and look the same
+        // consequence up again
+        for tier in [Tier::Quick, Tier::Thorough] {
+            let mut run = Run::new("C12", tier, "exploration");
+            wide_laws(tier, &mut run);
+            if let Some(f) = run.stats.fails.values().find(|f| f.case["wide"] == true && f.case["collection"] == case["collection"] && f.case["part"] == case["part"]) {
+                return Err((f.sig.clone(), f.detail.clone()));
+            }
+        }
+        return Ok(());
     } else if law == "collection-size" || law == "no-panic" {
         let all = items(&pool(Tier::Thorough));
         let all_q = items(&pool(Tier::Quick));
